@@ -293,6 +293,8 @@ class Run(object):
                     return None
                 if how in SIG_CORRUPTIONS and target == 'cv':
                     m.signature = P.corrupt_sig(m.signature, how, rng, self.stale)
+                if how == 'unknown-scheme':              # a value that names no signature scheme; signature untouched
+                    m.signatureAlgorithm = tuple(case['scheme'])
                 if how == 'scheme' and resign is not None:
                     key, scheme, role, prf = resign
                     m.signature = P.sign_cv(key, tuple(case['ver']), peer._handshake_hash, scheme, role,
